@@ -16,6 +16,10 @@ PROP = {'drive': ['Cff'], 'modules': ['SfntV.Props.C13'],
                        'C13_encoding_roundtrip',
                        'C13_strings_roundtrip',
                        'C13_layout_consistent',
+                       'C13_privatedict_roundtrip',
+                       'C13_topdict_roundtrip',
+                       'C13_font_roundtrip_simple',
+                       'C13_width_recovered',
                        'C13_widths_integral',
                        'C13_width_stored_exactly',
                        'C13_facts'],
